@@ -16,6 +16,8 @@ ORACLE_KLASS = [
     ("completed-bytes", "completed-bytes"),
     ("done-with-missing-pieces", "done-incomplete"),
     ("done-files-differ-from-content", "done-files-differ"),
+    ("done-file-length", "done-file-length"),
+    ("honest-piece-failed", "honest-data-rejected"),
 ]
 
 
@@ -35,10 +37,12 @@ def oracle(case, iline):
         for tok in verdict.split()[1:]:
             kl = next((k for pre, k in ORACLE_KLASS if tok.startswith(pre)), "oracle")
             bad.append((kl, "a piece was reported complete but the bytes on disk do not hash to the torrent's SHA-1 / "
-                            "completion accounting is wrong: " + tok))
+                            "completion accounting is wrong / honest data was damaged / files differ from the content: " + tok))
     kv = dict(t.split("=", 1) for t in stats.split() if "=" in t)
     if kv.get("stuck") == "1":
-        bad.append(("liveness-stale-transfer",
+        # the known stall is exactly: after a hash failure every connected candidate has a finished transfer on every
+        # open block (decided in the harness on the private state); any other stall is a different violation
+        bad.append(("liveness-stale-transfer" if kv.get("stale") == "1" else "liveness-stall",
                     "the download made no progress for 4 x 125 s although an honest, unchoking peer holding every piece stayed "
                     "connected: completed=%s listed=%s pending=%s" % (kv.get("completed"), kv.get("listed"), kv.get("pending"))))
     return bad
@@ -115,8 +119,9 @@ def run(rep, tier, seed, replay):
         if m is not None and not m.startswith("ACCEPT"):
             rejected += 1
             short = re.sub(r"B:(\d+):[0-9a-f]+", r"B:\1:..", o)[:1500]
-            if viol:
-                kl, text = viol[0]
+            fresh = [v for v in viol if v[0] not in rep.known]
+            if fresh:
+                kl, text = fresh[0]
                 rep.violation("the model rejects the recorded trace AND the property fails on the implementation: " + text,
                               case=case, model=m, impl=short, theorem="correspondence C01 (accept over recorded events, state snapshots)", klass=kl)
             else:
